@@ -74,6 +74,8 @@ func sfLeanType(k string) string {
 		return "Bool"
 	case "int":
 		return "Int"
+	case "nat":
+		return "Nat"
 	}
 	return "?"
 }
@@ -279,6 +281,12 @@ func (t *sfTrans) expr(e ast.Expr, env *sfEnv) (string, string, error) {
 		return "", "", fmt.Errorf("unsupported index expression %s", txt)
 	case *ast.CallExpr:
 		if id, ok := x.Fun.(*ast.Ident); ok && id.Name == "len" && len(x.Args) == 1 {
+			// len of a slice-valued field path: the length itself becomes an (integer) parameter `<path>_len`
+			if pth, ok := t.path(x.Args[0]); ok {
+				if _, isSlice := t.p.TypesInfo.TypeOf(x.Args[0]).Underlying().(*types.Slice); isSlice {
+					return "(Int.ofNat " + t.param(pth+"_len", "nat") + ")", "int", nil
+				}
+			}
 			s, k, err := t.expr(x.Args[0], env)
 			if err != nil {
 				return "", "", err
